@@ -2,6 +2,7 @@
    statement is examined on schedules by the harness).  Statements only. *)
 From Coq Require Import List ZArith String Bool Lia Sorted.
 From LV Require Import Base.Util Ledger.Types Ledger.Core Ledger.Invariants.
+From LV Require Export Props.C16c.   (* concurrent part: theorems over all schedules of the interleaving model Ledger/Conc.v *)
 Import ListNotations.
 Open Scope Z_scope.
 
